@@ -776,6 +776,15 @@ fn classify_death_base(status: Option<std::process::ExitStatus>, tail: &str) -> 
 				x.ends_with('!') && !x.contains("LLVM ERROR") && x.len() < 90
 			})
 			.map(|x| x.trim_start_matches(|c: char| !c.is_ascii_uppercase()).to_string())
+			.or_else(|| {
+				// complaints without an exclamation mark (`Invalid bitcast`): the
+				// heading of the block of indented instructions right above
+				let lines: Vec<&str> = tail.lines().collect();
+				let at = lines.iter().rposition(|l| l.contains("LLVM ERROR"))?;
+				let head = lines[..at].iter().rev().find(|l| !l.starts_with(' ') && !l.starts_with('\t') && !l.trim().is_empty())?;
+				let ok = head.len() < 90 && head.chars().next().map(|c| c.is_ascii_uppercase()).unwrap_or(false) && lines[..at].last().map(|l| l.starts_with(' ')).unwrap_or(false);
+				if ok { Some(head.trim().to_string()) } else { None }
+			})
 			.unwrap_or_default();
 		return format!("llvm-abort {} {}", l.trim(), complaint).trim().to_string();
 	}
